@@ -105,6 +105,25 @@ Proof.
   unfold add16. rewrite wrap16_id by lia. split; [exact Hf2|]. lia.
 Qed.
 
+(* ... and the int16 expressions of the loop are the mathematical ones *)
+Lemma win_low_eq al be f : win_ok al be f -> - SearchParams.Inf <= al ->
+  sub16 al (wrap16 (f * wrap16 SearchParams.WindowSize)) = al - f * SearchParams.WindowSize /\ wrap16 (f * 2) = f * 2.
+Proof.
+  unfold SearchParams.Inf. intros (Hf & H1 & H2 & H3) Ha. change (wrap16 SearchParams.WindowSize) with 44. change SearchParams.WindowSize with 44.
+  destruct (pows_small f Hf ltac:(lia)) as [Hf2 Hle]. pose proof (pows_range f Hf) as Hr.
+  rewrite (wrap16_id (f * 44)) by lia. rewrite (wrap16_id (f * 2)) by lia.
+  unfold sub16. rewrite wrap16_id by lia. split; reflexivity.
+Qed.
+
+Lemma win_high_eq al be f : win_ok al be f -> be <= SearchParams.Inf ->
+  add16 be (wrap16 (f * wrap16 SearchParams.WindowSize)) = be + f * SearchParams.WindowSize /\ wrap16 (f * 2) = f * 2.
+Proof.
+  unfold SearchParams.Inf. intros (Hf & H1 & H2 & H3) Hb. change (wrap16 SearchParams.WindowSize) with 44. change SearchParams.WindowSize with 44.
+  destruct (pows_small f Hf ltac:(lia)) as [Hf2 Hle]. pose proof (pows_range f Hf) as Hr.
+  rewrite (wrap16_id (f * 44)) by lia. rewrite (wrap16_id (f * 2)) by lia.
+  unfold add16. rewrite wrap16_id by lia. split; reflexivity.
+Qed.
+
 (* ------------------------------------------------------------------------------------------ *)
 (* the engine state between root calls *)
 
@@ -123,7 +142,7 @@ Section DeepenVal.
     aspire fuel o n st b al be f d = Ok a ->
     match a with
     | AspOk s st1 b1 => Jst st1 /\ score_ok s /\ (d = 1 -> Pv.active (s_pv st1) = [] -> final_or_no_legal b)
-    | AspAbort st1 b1 => s_aborted st1 = true
+    | AspAbort st1 b1 => s_aborted st1 = true /\ Jst st1
     end.
   Proof.
     induction n as [|n IH]; intros st b al be f d a Hg HJ Hd Hw H; [discriminate H|].
@@ -134,7 +153,7 @@ Section DeepenVal.
     pose proof (rkR_elim _ _ (alphaBeta_rk o fuel _ _ _ _ _ _ _ _ _ _ E) Hr) as Hr1.
     pose proof E as E'. apply alphaBeta_leg in E'; [|exact Hg|exact Hs|lia]. destruct E' as (-> & [_ Hh1] & Hs1 & _ & _).
     assert (HJ1 : Jst st1) by (split; [exact Hs1|split; [exact Ht1|split; [congruence|exact Hr1]]]).
-    destruct (s_aborted st1) eqn:A; [walk; exact A|].
+    destruct (s_aborted st1) eqn:A; [walk; split; [exact A|exact HJ1]|].
     destruct (Hv eq_refl) as [Hsc Hfin]. unfold score_ok, SearchParams.Inf in Hsc.
     destruct (s <=? al) eqn:C1.
     { apply Z.leb_le in C1. eapply IH; [exact Hg|exact HJ1|exact Hd| |exact H]. apply win_low; [exact Hw|lia]. }
@@ -167,7 +186,7 @@ Section DeepenVal.
       match goal with E : deepen _ _ _ _ _ _ _ _ _ _ _ _ = Ok _ |- _ => apply deepen_nonzero in E; auto end.
     - exfalso. rewrite Z.eqb_refl in H.
       destruct (fallback st1 b1) as [[[m x] y]| |] eqn:F; cbn [bind] in H; try discriminate H.
-      apply fallback_aborted in F. walk. congruence.
+      apply fallback_aborted in F. walk. destruct Hn as [Hn _]. congruence.
   Qed.
 
   (* iteration 0 *)
@@ -196,7 +215,34 @@ Section DeepenVal.
         match goal with E : deepen _ _ _ _ _ _ _ _ _ _ _ _ = Ok _ |- _ => apply deepen_nonzero in E; auto end.
     - exfalso. rewrite Z.eqb_refl in H.
       destruct (fallback st1 b1) as [[[m x] y]| |] eqn:F; cbn [bind] in H; try discriminate H.
-      apply fallback_aborted in F. walk. congruence.
+      apply fallback_aborted in F. walk. destruct Hn as [Hn _]. congruence.
+  Qed.
+
+  (* with a depth limit <= 1 the whole of iterative deepening keeps the table invariant *)
+  Lemma fallback_tt st b mv st' b' : fallback st b = Ok (mv, st', b') -> s_tt st' = s_tt st.
+  Proof. intros H. unfold fallback in H. walk. reflexivity. Qed.
+
+  Lemma deepen_J01 : forall todo st b d al be sc mv pd reps r st' b', good b -> Jst st -> o_depth o <= 1 ->
+    0 <= d -> win_ok al be 1 ->
+    deepen fuel o todo st b d al be sc mv pd reps = Ok (r, st', b') -> tt_values_ok (s_tt st').
+  Proof.
+    induction todo as [|t IH]; intros st b d al be sc mv pd reps r st' b' Hg HJ Ho Hd0 Hw H; cbn [deepen] in H.
+    - walk. exact (proj1 (proj2 HJ)).
+    - destruct (negb ((d <? SearchParams.MaxPlies) && (d <=? o_depth o))) eqn:Cn; [walk; exact (proj1 (proj2 HJ))|].
+      apply negb_false_iff, andb_true_iff in Cn. destruct Cn as [_ Cn]. apply Z.leb_le in Cn.
+      assert (Hd : d = 0 \/ d = 1) by lia.
+      destruct (aspire fuel o 64 st b al be 1 d) as [a| |] eqn:Ea; cbn [bind] in H; try discriminate H.
+      pose proof (aspire_val _ _ _ _ _ _ _ _ Hg HJ Hd Hw Ea) as Hn.
+      apply aspire_leg in Ea; [|exact Hg|exact (proj1 HJ)]. destruct a as [s st1 b1|st1 b1].
+      + destruct Ea as (-> & _ & _). destruct Hn as (HJ1 & Hsc & _).
+        destruct (IterDeepen.adopt (Pv.active (s_pv st1)) mv pd) as [mv1 pd1].
+        destruct (hashfull (s_tt st1) (s_gen st1)) as [hf| |]; cbn [bind] in H; try discriminate H.
+        destruct (negb (mv1 =? 0) && soft_abort o (s_nodes st1)); [walk; exact (proj1 (proj2 HJ1))|].
+        eapply IH; [exact Hg|exact HJ1|exact Ho| |apply win_next; exact Hsc|exact H]. lia.
+      + destruct Hn as [_ HJ1]. destruct (mv =? 0).
+        * destruct (fallback st1 b1) as [[[m x] y]| |] eqn:F; cbn [bind] in H; try discriminate H.
+          apply fallback_tt in F. walk. rewrite F. exact (proj1 (proj2 HJ1)).
+        * walk. exact (proj1 (proj2 HJ1)).
   Qed.
 End DeepenVal.
 
@@ -224,4 +270,15 @@ Proof.
   destruct (go_null_fin fuel o st b r st' b' Hg Hs Ht Hrk Hd H Hna Hr) as [F|[F|(st0 & HJ & s & hm & ys & Hhm & Hdr & Hall)]]; auto.
   left. destruct HJ as (_ & _ & Hh0 & Hr0). rewrite Hh0 in Hdr.
   exact (complete_no_playable _ _ _ _ _ _ (Hpc _ Hr0) Hhm Hdr Hall).
+Qed.
+
+(* Search.Go with a depth limit <= 1 keeps the table invariant (at larger depths null move pruning returns
+   window bounds that are not re-based: see Properties/C06_bounds.v) *)
+Theorem go_keeps_values_depth1 fuel o st b r st' b' : good b -> state_ok st -> tt_values_ok (s_tt st) -> reachable (s_rk st) ->
+  o_depth o <= 1 -> go fuel o st b = Ok (r, st', b') -> tt_values_ok (s_tt st').
+Proof.
+  intros Hg Hs Ht Hrk Hd H. unfold go, iterative_deepen in H.
+  destruct (deepen fuel o _ (refresh st) b 0 _ _ 0 0 0 []) as [[[r0 s1] b1]| |] eqn:E; cbn [bind] in H; try discriminate H.
+  injection H as <- <- <-. cbn [s_tt set_gen].
+  exact (deepen_J01 fuel o _ _ _ _ _ _ _ _ _ _ _ _ _ Hg (refresh_J _ Hs Ht Hrk) Hd (Z.le_refl 0) win_init E).
 Qed.
